@@ -151,7 +151,88 @@ MUTANTS = [
       "                    self._write_lease_record(f, modified, blank_lease)\n", "C25.8"),
     M("cancel-blanks-unmatched", MUT, "                if lease.is_cancel_secret(cancel_secret):\n                    self._write_lease_record(f, leasenum, blank_lease)\n",
       "                if lease.is_cancel_secret(cancel_secret) or lease.is_renew_secret(cancel_secret):\n                    self._write_lease_record(f, leasenum, blank_lease)\n", "C25.8"),
+    # ---- gap review (mutation sweep survivors)
+    M("server-renew-always-reports-failure", SRV, "            found_buckets = True\n            sf.renew_lease(renew_secret, new_expire_time)",
+      "            sf.renew_lease(renew_secret, new_expire_time)", "C25.2"),
+    M("server-renew-fails-when-found", SRV, "        if not found_buckets:\n            raise IndexError(\"no such lease to renew\")\n",
+      "        if found_buckets:\n            raise IndexError(\"no such lease to renew\")\n", "C25.2"),
+    M("hash-wider-than-secret-field", LSCH, "        return blake2b(secret, digest_size=32, encoder=RawEncoder)",
+      "        return blake2b(secret, digest_size=33, encoder=RawEncoder)", "C25.4"),
+    M("hash-narrower-than-secret-field", LSCH, "        return blake2b(secret, digest_size=32, encoder=RawEncoder)",
+      "        return blake2b(secret, digest_size=16, encoder=RawEncoder)", "C25.4"),
+    M("hash-hex-encoded", LSCH, "        return blake2b(secret, digest_size=32, encoder=RawEncoder)",
+      "        return blake2b(secret, digest_size=32)", "C25.4"),
+    M("extra-count-read-unpositioned", MUT, "        f.seek(offset)\n        (num_extra_leases,) = struct.unpack(\">L\", f.read(4))",
+      "        (num_extra_leases,) = struct.unpack(\">L\", f.read(4))", "C25.6"),
+    M("extra-count-written-unpositioned", MUT, "        f.seek(extra_lease_offset)\n        f.write(struct.pack(\">L\", num_leases))",
+      "        f.write(struct.pack(\">L\", num_leases))", "C25.6"),
+    M("extra-count-seek-then-offset-read", MUT, "        extra_lease_offset = self._read_extra_lease_offset(f)\n        f.seek(extra_lease_offset)\n        f.write(struct.pack(\">L\", num_leases))",
+      "        extra_lease_offset = self._read_extra_lease_offset(f)\n        f.seek(extra_lease_offset)\n        self._read_data_length(f)\n        f.write(struct.pack(\">L\", num_leases))", "C25.6"),
+    M("extra-count-written-at-data-length", MUT, "        f.seek(extra_lease_offset)\n        f.write(struct.pack(\">L\", num_leases))",
+      "        f.seek(self.DATA_LENGTH_OFFSET)\n        f.write(struct.pack(\">L\", num_leases))", "C25.6"),
+    M("extra-count-ignores-argument", MUT, "        f.write(struct.pack(\">L\", num_leases))", "        f.write(struct.pack(\">L\", 0))", "C25.6"),
+    M("extra-offset-read-unpositioned", MUT, "        f.seek(self.EXTRA_LEASE_OFFSET)\n        (extra_lease_offset,) = struct.unpack(\">Q\", f.read(8))",
+      "        (extra_lease_offset,) = struct.unpack(\">Q\", f.read(8))", "C25.6"),
+    M("immutable-count-never-stored", IMM, "            self._write_lease_record(f, num_leases, lease_info)\n            self._write_encoded_num_leases(f, new_lease_count)\n",
+      "            self._write_lease_record(f, num_leases, lease_info)\n", "C25.6"),
+    M("immutable-count-stored-only-sometimes", IMM, "            self._write_encoded_num_leases(f, new_lease_count)\n",
+      "            if num_leases:\n                self._write_encoded_num_leases(f, new_lease_count)\n", "C25.6"),
+    M("immutable-count-at-wrong-offset", IMM, "        f.seek(0x08)\n        f.write(encoded_num_leases)", "        f.seek(0x04)\n        f.write(encoded_num_leases)", "C25.6"),
+    M("immutable-count-read-unpositioned", IMM, "        f.seek(0x08)\n        (num_leases,) = struct.unpack(", "        (num_leases,) = struct.unpack(", "C25.6"),
+    M("allocate-forgets-existing-shares", SRV, "            alreadygot[shnum] = ShareFile(fn)\n", "            pass\n", "C25.7"),
+    M("empty-slot-test-negated", MUT, "        if lease_info.owner_num == 0:\n            return None\n        return lease_info",
+      "        if lease_info.owner_num != 0:\n            return None\n        return lease_info", "C25.9"),
+    M("empty-slot-marker-is-owner-one", MUT, "        if lease_info.owner_num == 0:\n            return None\n        return lease_info",
+      "        if lease_info.owner_num == 1:\n            return None\n        return lease_info", "C25.9"),
+    M("every-slot-reads-empty", MUT, "        if lease_info.owner_num == 0:\n            return None\n        return lease_info",
+      "        if lease_info.owner_num == 0:\n            return None\n        return None", "C25.9"),
+    M("reader-returns-raw-bytes", MUT, "        if lease_info.owner_num == 0:\n            return None\n        return lease_info",
+      "        if lease_info.owner_num == 0:\n            return None\n        return data", "C25.9"),
+    M("first-empty-slot-is-first-live", MUT, "            if self._read_lease_record(f, i) is None:\n                return i",
+      "            if self._read_lease_record(f, i) is not None:\n                return i", "C25.9"),
+    M("first-empty-slot-off-by-one", MUT, "            if self._read_lease_record(f, i) is None:\n                return i",
+      "            if self._read_lease_record(f, i) is None:\n                return i + 1", "C25.9"),
+    M("first-empty-slot-from-previous-iteration", MUT, "        for i in range(self._get_num_lease_slots(f)):\n            if self._read_lease_record(f, i) is None:\n                return i\n        return None",
+      "        last = None\n        for i in range(self._get_num_lease_slots(f)):\n            if self._read_lease_record(f, i) is None:\n                last = i\n        return i if last is not None else None", "C25.9"),
+    M("new-lease-always-in-slot-zero", MUT, "                self._write_lease_record(f, empty_slot, lease_info)", "                self._write_lease_record(f, 0, lease_info)", "C25.9"),
+    M("new-lease-over-last-slot", MUT, "                self._write_lease_record(f, num_lease_slots, lease_info)",
+      "                self._write_lease_record(f, num_lease_slots - 1, lease_info)", "C25.9"),
+    M("new-lease-not-written", MUT, "                self._write_lease_record(f, num_lease_slots, lease_info)", "                pass", "C25.9"),
+    M("new-lease-slot-unchecked", MUT, "            if empty_slot is not None:\n                self._write_lease_record(f, empty_slot, lease_info)",
+      "            if num_lease_slots:\n                self._write_lease_record(f, empty_slot, lease_info)", "C25.9"),
     # ---- behaviour-preserving
+    M("benign-server-renew-early-return", SRV, "        if not found_buckets:\n            raise IndexError(\"no such lease to renew\")\n",
+      "        if found_buckets:\n            return\n        raise IndexError(\"no such lease to renew\")\n", None),
+    M("benign-digest-size-constant", LSCH, "        return blake2b(secret, digest_size=32, encoder=RawEncoder)",
+      "        return blake2b(secret, digest_size=SECRET_HASH_SIZE, encoder=RawEncoder)", None,
+      edits=[(LSCH, "@attr.s(frozen=True)\nclass HashedLeaseSerializer:", "SECRET_HASH_SIZE = 2 * 16\n\n@attr.s(frozen=True)\nclass HashedLeaseSerializer:")]),
+    M("benign-count-seek-inlined", MUT, "        extra_lease_offset = self._read_extra_lease_offset(f)\n        f.seek(extra_lease_offset)\n        f.write(struct.pack(\">L\", num_leases))",
+      "        f.seek(self._read_extra_lease_offset(f))\n        f.write(struct.pack(\">L\", num_leases))", None),
+    M("benign-count-packed-first", MUT, "        extra_lease_offset = self._read_extra_lease_offset(f)\n        f.seek(extra_lease_offset)\n        f.write(struct.pack(\">L\", num_leases))",
+      "        encoded = struct.pack(\">L\", num_leases)\n        where = self._read_extra_lease_offset(f)\n        f.seek(where)\n        f.write(encoded)", None),
+    M("benign-count-read-renamed", MUT, "        offset = self._read_extra_lease_offset(f)\n        f.seek(offset)\n        (num_extra_leases,) = struct.unpack(\">L\", f.read(4))",
+      "        where = self._read_extra_lease_offset(f)\n        f.seek(where)\n        raw = f.read(4)\n        (num_extra_leases,) = struct.unpack(\">L\", raw)", None),
+    M("benign-immutable-count-renamed", IMM, "            new_lease_count = struct.pack(self._lease_count_format, num_leases + 1)\n            self._write_lease_record(f, num_leases, lease_info)\n            self._write_encoded_num_leases(f, new_lease_count)\n",
+      "            encoded = struct.pack(self._lease_count_format, num_leases + 1)\n            self._write_lease_record(f, num_leases, lease_info)\n            self._write_encoded_num_leases(f, encoded)\n", None),
+    M("benign-immutable-count-offset-decimal", IMM, "        f.seek(0x08)\n        f.write(encoded_num_leases)", "        f.seek(4 + 4)\n        f.write(encoded_num_leases)", None),
+    M("benign-allocate-shares-hoisted", SRV, "        for (shnum, fn) in self.get_shares(storage_index):\n            alreadygot[shnum] = ShareFile(fn)\n",
+      "        existing = list(self.get_shares(storage_index))\n        for (shnum, fn) in existing:\n            alreadygot[shnum] = ShareFile(fn)\n", None),
+    M("benign-empty-slot-truthiness", MUT, "        if lease_info.owner_num == 0:\n            return None\n        return lease_info",
+      "        if lease_info.owner_num:\n            return lease_info\n        return None", None),
+    M("benign-empty-slot-not-equal", MUT, "        if lease_info.owner_num == 0:\n            return None\n        return lease_info",
+      "        record = lease_info\n        if not record.owner_num != 0:\n            return None\n        return record", None),
+    M("benign-first-empty-slot-hoisted", MUT, "            if self._read_lease_record(f, i) is None:\n                return i",
+      "            record = self._read_lease_record(f, i)\n            if record is not None:\n                continue\n            return i", None),
+    M("benign-add-lease-branches-swapped", MUT,
+      "            if empty_slot is not None:\n                self._write_lease_record(f, empty_slot, lease_info)\n            else:\n"
+      "                if lease_info.mutable_size() > available_space:\n                    raise NoSpace()\n"
+      "                self._write_lease_record(f, num_lease_slots, lease_info)\n",
+      "            if empty_slot is None:\n                if lease_info.mutable_size() > available_space:\n                    raise NoSpace()\n"
+      "                self._write_lease_record(f, num_lease_slots, lease_info)\n            else:\n"
+      "                self._write_lease_record(f, empty_slot, lease_info)\n", None),
+    M("benign-add-lease-slot-renamed", MUT,
+      "            empty_slot = self._get_first_empty_lease_slot(f)\n            if empty_slot is not None:\n                self._write_lease_record(f, empty_slot, lease_info)\n",
+      "            slot = self._get_first_empty_lease_slot(f)\n            if slot is not None:\n                self._write_lease_record(f, slot, lease_info)\n", None),
     M("benign-guard-flipped", IMM, "                if allow_backdate or new_expire_time > lease.get_expiration_time():",
       "                if allow_backdate or lease.get_expiration_time() < new_expire_time:", None),
     M("benign-secret-hoisted", MUT, MUT_AOR,
